@@ -56,6 +56,9 @@ func (w *world) has(p string) bool { return w.prop == p }
 // read goes through a throw-away trie object on the same store, root and
 // version with an empty cache, so the trie under test is not perturbed.
 func (w *world) observer(t *inst) *util.MerklePatriciaTrie {
+	if w.s.Observe == "clone" {
+		return util.CloneMPT(t.mpt)
+	}
 	if w.s.Observe != "fresh" {
 		return t.mpt
 	}
@@ -416,7 +419,12 @@ func (w *world) checkContent(t *inst, how string) {
 	var list []kv
 	var err error
 	w.faultMark()
-	if w.guard("Iterate", func() { got, list, err = content(w.observer(t)) }) {
+	mode := 0
+	if w.s.IterAll {
+		w.iterN++
+		mode = w.iterN % 3
+	}
+	if w.guard("Iterate", func() { got, list, err = contentVia(w.observer(t), mode) }) {
 		return
 	}
 	relaxed := t.degraded || w.faultHit() || (w.has("C03") && t.stale)
